@@ -90,7 +90,7 @@ class Ctx:
         return res
 
     # -- trace validation ---------------------------------------------------------------
-    def judge(self, module, cfg, records, metas=None, replay_info=None, sig=None, **kw):
+    def judge(self, module, cfg, records, metas=None, replay_info=None, sig=None, reject_drift=None, **kw):
         """records: list of dicts WITHOUT ids (ids are assigned here).  Returns verdict dict.
         Clauses are named '<PID>.<Name>'; only clauses of this check's property raise a
         violation, the others are counted under other_props."""
@@ -109,6 +109,11 @@ class Ctx:
         for i, ds in drift.items():
             for d in ds:
                 self.drift[d] = self.drift.get(d, 0) + 1
+        if reject_drift:
+            # event-level trace specs print <<"A", id>> when a record's events were all consumed
+            self.last_rejected = sorted(set(r['id'] for r in records) - res['accepted'])
+            if self.last_rejected:
+                self.drift[reject_drift] = self.drift.get(reject_drift, 0) + len(self.last_rejected)
         for i, cs in verdicts.items():
             for c in cs:
                 self.clauses[c] = self.clauses.get(c, 0) + 1
